@@ -117,11 +117,13 @@ def listing_entry_parsed_per_path(ck: Checker, rule: str) -> None:
     fn = ck.prog.func("hashfile.tree", "Tree.from_list")
     g = ck.cfg(fn)
     adds = [n for n in g.nodes.values() for c in calls_at(n) if is_method_call(c, "add") and n.loops]
+    # ... or entries stored straight into the tree's table (`tree._dict[parts] = (meta, hash_info)`)
+    adds += [n for n in g.nodes.values() if n.loops and n.kind == "stmt" and isinstance(n.ast, ast.Assign) and any(isinstance(t, ast.Subscript) and isinstance(t.value, ast.Attribute) and t.value.attr == "_dict" for t in n.ast.targets)]
     ck.floor(rule, len(adds), 1, "tree.add calls in the listing loop of Tree.from_list")
     for n in adds:
         head = n.loops[-1]
         parse = {m.id for m in g.nodes.values() if head in m.loops for c in calls_at(m) if isinstance(c.func, ast.Attribute) and c.func.attr == "from_dict" and norm(c.func.value).endswith("Meta")}
-        w = avoiding_path(g, n.id, lambda x: x.id in parse, start=head)
+        w = None if n.id in parse else avoiding_path(g, n.id, lambda x: x.id in parse, start=head)
         ck.require(bool(parse) and w is None, rule, fn, n, "every listed path gets the metadata parsed from its own listing entry",
                    "a path can be added with metadata that was not parsed from its own listing entry in this iteration (a memo shared between paths): isexec / version_id / remote of another path with the same content are restored for it",
                    witness=g.fmt_path(w) if w else None, construct=f"{n.text()[:40]} / Meta.from_dict per path")
